@@ -81,6 +81,14 @@ Theorem C09_resolve_idempotent :
 Proof. intros fs cwd s r Hc Hr. exact (resolve_comps_idem fs r (resolve_clean fs cwd s r Hc Hr)). Qed.
 Print Assumptions C09_resolve_idempotent.
 
+(* the symlink-loop error (fuel exhausted) cannot arise when no link is involved, and
+   a path that resolves at all resolves to the same result with any larger fuel *)
+Theorem C09_resolve_fuel :
+  (forall fs cwd s, (forall p t, lookup fs p <> Some (KLink t)) -> exists r, resolve fs cwd s = Ok r) /\
+  (forall fs f1 f2 acc t r1 r2, rp f1 fs acc t = Ok r1 -> rp f2 fs acc t = Ok r2 -> r1 = r2).
+Proof. exact (conj resolve_total_nolinks rp_det). Qed.
+Print Assumptions C09_resolve_fuel.
+
 (* ---- extensions (tables regenerated from the source on every run) ---- *)
 Theorem C09_extensions :
   (forall e, In e source_extensions <->
@@ -109,6 +117,14 @@ Theorem C09_parent_rule_of_spec :
     git_ignored (ps ++ [p]) cs = true.
 Proof. exact parent_rule_spec. Qed.
 Print Assumptions C09_parent_rule_of_spec.
+
+(* appending a positive pattern never re-includes anything - for git and for pathspec *)
+Theorem C09_positive_monotone :
+  forall ps p cs, p_neg p = false ->
+    (git_ignored ps cs = true -> git_ignored (ps ++ [p]) cs = true) /\
+    (ps_match ps cs = true -> ps_match (ps ++ [p]) cs = true).
+Proof. intros ps p cs Hn. exact (conj (git_positive_monotone ps p cs Hn) (ps_positive_monotone ps p cs Hn)). Qed.
+Print Assumptions C09_positive_monotone.
 
 (* "/name" matches at the root only; "name" matches the last component at any depth *)
 Theorem C09_anchored_only_at_root :
